@@ -202,7 +202,9 @@ def run(repo, rep):
                 rep.ok('C03.c', 'engine:' + i.construct, i.where, i.detail)
             elif i.verdict == 'VIOLATED':
                 rep.fail('C03.c', 'engine:' + i.construct, i.where, 'line indentation is no longer the sum of the enclosing nest amounts: ' + i.detail)
-    rep.floor('C03.c', n, 12)
+    from . import docmodel
+    n += docmodel.run(repo, rep, {'normalisation': 'C03.c', 'constructors': 'C03.c'})
+    rep.floor('C03.c', n, 14)
 
     # ---------------------------------------------------------------- C03.d one set of settings for every variant of a value
     # the flat and the broken rendering of a value are produced under contexts that differ at most in what the context model
